@@ -184,12 +184,32 @@ func routeThroughRunner(c *lib.Ctx, groups, ops int, keys [][]byte) map[string][
 		chunks = append(chunks, records[i:i+n])
 		i += n
 	}
+	// A third of the runners are deployed twice in place (a job restarted with another worker count finds the
+	// surviving workers registered): first, idle, for an assembly of another size, then for the one under test.
+	// Plain builds only: what an in-place redeploy leaves running is the subject of a known finding (DESIGN §12.5);
+	// routing of records read after the second deploy must follow the ranges of the second deploy all the same.
+	var prev []*opStub
+	if !lib.RaceEnabled && r.Intn(3) == 0 {
+		n0 := lib.Pick(r, []int{1, ops + 1, 2 * ops, max(1, ops-1), max(1, ops/2)})
+		if n0 == ops {
+			n0 = ops + 1
+		}
+		for i := 0; i < n0; i++ {
+			prev = append(prev, &opStub{idx: 100000 + i, log: log})
+		}
+		c.Feat("runners_redeployed_in_place_with_other_operator_count", 1)
+	}
 	sr := sourcerunner.New(sourcerunner.NewParams{
 		Host:        "runner",
 		UserHandler: identityKeyer{},
 		Job:         nopJob{},
 		OperatorFactory: func(senderID string, node *jobpb.NodeIdentity) proto.Operator {
 			for _, s := range stubs {
+				if s.ID() == node.Id {
+					return s
+				}
+			}
+			for _, s := range prev {
 				if s.ID() == node.Id {
 					return s
 				}
@@ -205,6 +225,15 @@ func routeThroughRunner(c *lib.Ctx, groups, ops int, keys [][]byte) map[string][
 	defer cancel()
 	stopped := make(chan error, 1)
 	go func() { stopped <- sr.Start(ctx) }()
+	if len(prev) > 0 {
+		prevNodes := make([]*jobpb.NodeIdentity, len(prev))
+		for i, s := range prev {
+			prevNodes[i] = &jobpb.NodeIdentity{Id: s.ID(), Host: "stub"}
+		}
+		if err := sr.HandleDeploy(ctx, &workerpb.DeploySourceRunnerRequest{Operators: prevNodes, KeyGroupCount: int32(groups), Sources: []*jobconfigpb.Source{{}}}); err != nil {
+			c.Fail("runner-deploy", map[string]any{"groups": groups, "operators": len(prev)}, "SourceRunner.HandleDeploy (earlier assembly): %v", err)
+		}
+	}
 	if err := sr.HandleDeploy(ctx, &workerpb.DeploySourceRunnerRequest{Operators: nodes, KeyGroupCount: int32(groups), Sources: []*jobconfigpb.Source{{}}}); err != nil {
 		c.Fail("runner-deploy", map[string]any{"groups": groups, "operators": ops}, "SourceRunner.HandleDeploy: %v", err)
 	}
@@ -398,6 +427,10 @@ func routingCase(c *lib.Ctx) {
 		}
 	}
 
+	if c.Violated() {
+		return // the persisting side below writes every key through the operator it was routed to
+	}
+
 	// (b) persisting side: every operator has its own key space object, as in HandleDeploy
 	parts := make([]*operator.OperatorPartition, ops)
 	for i := range parts {
@@ -422,6 +455,7 @@ func routingCase(c *lib.Ctx) {
 			c.Feat("empty_range_operators_constructed", 1)
 		}
 		written := map[string]bool{}
+		timersPut := map[string]int{}         // subject -> timers put (distinct times)
 		entriesOf := map[string][][2]string{} // subject -> (ns, entry) written
 		for j, k := range keys {
 			if o, ok := owner[string(k)]; !ok || o != i {
@@ -442,6 +476,7 @@ func routingCase(c *lib.Ctx) {
 			tms := int64(1_000_000 + r.Intn(1000)*1000 + j)
 			steps = append(steps, fmt.Sprintf("TimerStore.Put(%q, %d ms)", k, tms))
 			timers.Put(k, time.UnixMilli(tms))
+			timersPut[string(k)]++
 			written[persisted{Schema: 1, Subject: k}.id()] = true
 			c.Feat("entries_written", 2)
 		}
@@ -497,6 +532,36 @@ func routingCase(c *lib.Ctx) {
 		fromCkpt := scanAll(reopened, "scan of the database re-opened from checkpoint 1 with the same ownership")
 		if len(fromCkpt) != len(live) {
 			c.Violate("persist-lost", wit(nil, append(steps, "Checkpoint(1); dkv.Open(checkpoint 1, ownership = this operator's partition); ScanPrefix(nil)")...), "%d keys in the live database, %d after re-opening its checkpoint with the operator's own partition as ownership filter", len(live), len(fromCkpt))
+		}
+		// the owner finds what is stored under its groups: the timer store a deploy from the checkpoint builds
+		// over the re-opened database yields exactly the timers written through this operator, in time order
+		if rng.End > rng.Start {
+			wantT, wantN := map[string]int{}, 0
+			for k, n := range timersPut {
+				wantT[k] = n
+				wantN += n
+			}
+			rt := operator.NewTimerStore(reopened, ks, rng, uint64(lib.Pick(r, []int{1, 64, 1 << 20})))
+			var last time.Time
+			gotN := 0
+			for {
+				tm, ok := rt.Pop()
+				if !ok {
+					break
+				}
+				gotN++
+				if wantT[string(tm.Key)]--; wantT[string(tm.Key)] < 0 {
+					c.Violate("timer-readback", wit(tm.Key, append(steps, "Checkpoint(1); re-open; NewTimerStore(range); Pop")...), "the timer store of operator #%d (range [%d,%d)) over its re-opened checkpoint pops a timer for %q at %v that was not written through this operator", i, rng.Start, rng.End, tm.Key, tm.Timestamp)
+				}
+				if tm.Timestamp.Before(last) {
+					c.Violate("timer-readback", wit(tm.Key, append(steps, "Checkpoint(1); re-open; NewTimerStore(range); Pop")...), "timers pop out of time order: %v after %v", tm.Timestamp, last)
+				}
+				last = tm.Timestamp
+			}
+			if gotN != wantN {
+				c.Violate("timer-readback", wit(nil, append(steps, "Checkpoint(1); re-open; NewTimerStore(range); Pop until empty")...), "operator #%d (range [%d,%d)) wrote %d timers under its key groups; the timer store built over its re-opened checkpoint finds %d of them", i, rng.Start, rng.End, wantN, gotN)
+			}
+			c.Feat("timers_read_back_after_reopen", int64(gotN))
 		}
 		// (Opening the checkpoint under ANOTHER operator's partition is deliberately not judged here:
 		// dkv filters only the WAL replay through OwnsKey, table files keep foreign keys until a
